@@ -17,6 +17,8 @@ LABELSETS = {
     "numstr": ["1", "2", "10", "9", "03", "21", "100"],  # strings that sort differently from the numbers they spell
     # distinct integers with colliding hashes: hash(-1) == hash(-2), hash(2**61 - 1) == hash(0), hash(2**61) == hash(1)
     "hashy": [-1, -2, 0, 2**61 - 1, 1, 2**61, 3],
+    # ints beyond 2**53 next to non-integral floats: a conversion of the labels to one numpy array rounds the ints
+    "mixnum": [0.5, 2.5, 2**60 + 1, 2**53 + 1, 3, -7.25, 10],
     "range16": list(range(16)),
     "str16": ["n%02d" % i for i in range(8)] + ["m%d" % i for i in range(8, 16)],
 }
@@ -561,7 +563,7 @@ class Gen:
 
 
 def gen_config(rng, kind, tier, extra_ops=(), extra_weight=1.0):
-    lab = rng.choice(["small", "small", "big", "str", "numstr", "hashy"])
+    lab = rng.choice(["small", "small", "big", "str", "numstr", "hashy", "mixnum"])
     usize = rng.randint(3, 7)
     large = rng.random() < (0.06 if tier == "quick" else 0.12)
     if large:
@@ -898,7 +900,8 @@ def simplify_ops(case):
 
 # ------------------------------------------------------- derived-object comparison
 MD_KEYS_OBS = ("nodes_md", "node_md", "all_nodes_md", "edges_md", "edge_md", "all_edges_md", "hmeta")
-NODE_KEYS_OBS = ("nodes", "num_nodes", "inc", "deg", "nbr", "degseq", "degdist", "check_node", "isolated", "is_isolated")
+NODE_KEYS_OBS = ("nodes", "num_nodes", "inc", "deg", "nbr", "degseq", "degdist", "check_node", "isolated", "is_isolated",
+                 "in_degseq", "out_degseq")
 
 
 def compare_derived(pid, what, kind, obj, expected, universe, ignore_md=True, ignore_nodes=False, ctx=None,
